@@ -184,6 +184,22 @@ Theorem C20_conn : forall x : serve_exit, serve_events x = [TagConn; ConnBegin t
 Proof. exact serve_conn. Qed.
 Print Assumptions C20_conn.
 
+(* the tag clause: for every role, every exit, every number n of installed
+   handlers and every handler i < n: each event of the RPC is delivered to handler
+   i with a context that carries the value ITS TagRPC stored (depth > i: the
+   context TagRPC returned, or one the later handlers' TagRPC derived from it), and
+   the events are those of the per-exit lists above *)
+Theorem C20_stats_tagged : forall (server : bool) (n i : nat) (evs : list sev),
+  i < n ->
+  Forall (fun p : sev * nat => S i <= snd p) (tag_depths server n i evs) /\
+  map fst (tag_depths server n i evs) = evs.
+Proof. intros server n i evs H. split; [apply tag_depths_ge; exact H|apply tag_depths_events]. Qed.
+Print Assumptions C20_stats_tagged.
+
+Example C20_ex_tagged :
+  tag_depths true 3 1 (su_events (SU_run DecOk RNil)) =
+  [(TagRPC, 2); (Begin, 2); (InHeader, 2); (InPayload, 3); (OutHeader, 3); (OutPayload, 3); (OutTrailer, 3); (End true, 3)]%nat.
+Proof. vm_compute. reflexivity. Qed.
 Example C20_ex_client_unary_eof :
   cu_wf (CU_early REof) = true /\ cu_events (CU_early REof) = [TagRPC; Begin; OutHeader; OutPayload; End false].
 Proof. vm_compute. split; reflexivity. Qed.
